@@ -13,6 +13,22 @@ def strip_model(ex, recv, args, st):
 
 
 def str_method(ex, recv, name, args, kwargs, st):
+    import z3
+
+    if name == "join":
+        lst = args[0]
+        if not isinstance(lst, VList):
+            raise Unsupported("join of non-list")
+        if lst.ek is None:
+            return type(recv)(z3.StringVal(""))
+        sep = z3.simplify(recv.z)
+        if z3.is_string_value(sep) and sep.as_string() == "" and lst.bytebuf is not None:
+            return type(recv)(lst.bytebuf)
+        from .builtins_tbl import uf
+
+        f = uf(ex, "JOIN", S, lst.arr.sort(), I, S)
+        ex.assumed.add("bytes.join over an untracked list: uninterpreted JOIN(sep, items, n)")
+        return type(recv)(f(recv.z, lst.arr, lst.n))
     raise Unsupported(f"bytes.{name}")
 
 
@@ -21,10 +37,27 @@ def minmax(ex, is_max, args, kw, st):
 
 
 def call_py(ex, obj, name, node, st):
+    import builtins
+
+    from . import engine_models as EM
+
+    if obj is builtins.sorted:
+        args, kw = ex.eval_args(node, st)
+        lst = args[0]
+        if not isinstance(lst, VList):
+            raise Unsupported("sorted of non-list")
+        keyfn = kw.get("key")
+        if keyfn is None or not isinstance(keyfn, VFunc):
+            raise Unsupported("sorted without a key lambda")
+        return EM.model_sorted(ex, lst, keyfn, st)
     raise Unsupported(f"call of {name}")
 
 
 def comprehension(ex, node, st, kind):
+    from . import engine_models as EM
+
+    if EM.is_registry_genexp(ex, node, st):
+        return EM.registry_batch(ex, node, st)
     raise Unsupported("comprehension")
 
 
